@@ -11,7 +11,7 @@ from . import engine as E
 STUBS = [
     'bytearray -> list-backed SymByteArray in bytecode.packed_bits, bytecode.assembled, line_object, engine',
     'int -> proxy-aware cast (always yields a proxy; isinstance(x, int) accepts proxies) in expression, utilities, bytecode.parts, model, line_object.data_line',
-    'float/Fraction -> exact rational proxy (SymRat) in expression',
+    'Fraction -> exact rational proxy (SymRat) in expression; float (if the code uses it) -> IEEE binary64 proxy (z3 FP theory)',
     'open(..., "w"/"wb") in engine -> in-memory capture (records every open and write)',
     'click.echo / print in engine -> no-op / capture; hex() in engine (error message only) -> constant text',
     'yaml.safe_load in model -> deep copy of the shape\'s configuration dictionary with symbolic numeric leaves',
@@ -115,7 +115,7 @@ def install():
     import bespokeasm.assembler.bytecode.assembled as asmd
     asmd.bytearray = E.SymByteArray
     expr.int = E.sym_int
-    expr.float = E.sym_float
+    expr.float = E.sym_real_float
     if hasattr(expr, 'Fraction'):
         expr.Fraction = E.sym_float
     util.int = E.sym_int
